@@ -1,4 +1,5 @@
 \* the code as it is, two concurrent pushers and a listener
+\* measured: 2 013 772 / 10 014 969, depth 36 (distinct / generated states)
 CONSTANTS NTx = 2 Kind <- KindS Sender <- SenderS Nonce <- NonceS NAccs = 1 Accs <- MCAccs StartEmpty = FALSE
   Max = 3 NPushers = 2 NConsumers = 1 Batch = 2
   MaxPush = 3 MaxBlocks = 0 MaxFail = 0 MaxCrash = 0 MaxClose = 1 MaxPops = 1 MaxExecErr = 1 MaxFatal = 1
